@@ -10,6 +10,7 @@
 From ClapModel Require Import Base.Bytes Base.Machine.
 From ClapModel Require Import Parse.Cmd Parse.Build Parse.Valid Parse.Matcher Parse.Errors Parse.Parser ParseProofs.Actions ParseProofs.ActionsLoop ParseProofs.ActionsTokens ParseProofs.ActionsTop ParseProofs.ActionsWide ParseProofs.ActionsWideTop ParseProofs.ActionsGraph ParseProofs.ActionsRequired ParseProofs.ActionsChain.
 From ClapModel Require ParseProofs.Chain ParseProofs.Globals ParseProofs.UnparseTree.
+From ClapModel Require Gen.ActionTables ParseProofs.TablesActions.
 From Coq Require Import ZArith.
 Open Scope N_scope.
 
@@ -776,3 +777,79 @@ Theorem C07_chain_levels_top : forall c0 bin toks lv m,
   Globals.chain m = map (fun p => c_name (fst p)) (tl lv).
 Proof. exact chain_levels_top. Qed.
 Print Assumptions C07_chain_levels_top.
+
+(** ---- round 5: the model's builder data are the tables found in the source on this run ----
+    [Gen.ActionTables] is regenerated from clap_builder/src/builder/{action,range,arg}.rs by translators/builder_tables.py
+    before every build; vocabulary in ParseProofs/TablesActions.v: [row_ok act row] = the row says about [act] what
+    [action_default_num_args], [r_takes_values], [action_default_value], [action_default_missing_value], [action_default_vp]
+    say; [range_named] / [src_range_pred] read the constants / predicates of [ValueRange]; [tbl_arg_build] interprets
+    the table as [Arg::_build]. *)
+Theorem C07_action_table :
+  Forall2 TablesActions.row_ok TablesActions.action_variants ActionTables.gen_action_rows
+  /\ (forall act, In act TablesActions.action_variants)
+  /\ (forall act, exists row, TablesActions.row_of act = Some row /\ TablesActions.row_ok act row).
+Proof. exact (conj TablesActions.model_action_table (conj TablesActions.action_variants_complete TablesActions.model_action_row)). Qed.
+Print Assumptions C07_action_table.
+
+(** [Arg::_build] of the model IS the function the regenerated table defines, for every argument *)
+Theorem C07_arg_build_table : forall a, TablesActions.tbl_arg_build a = Some (arg_build a).
+Proof. exact TablesActions.arg_build_table. Qed.
+Print Assumptions C07_arg_build_table.
+
+(** after the build, "takes a value" of an argument without explicit [num_args] is the source's [takes_values()] of its action *)
+Theorem C07_built_takes_value_table : forall a row,
+  a_num a = None -> a_nvalnames a <= 1 -> TablesActions.row_of (a_get_action (ab_action a)) = Some row ->
+  a_takes_value (arg_build a) = ActionTables.ga_takes_values row.
+Proof. exact TablesActions.built_takes_value_table. Qed.
+Print Assumptions C07_built_takes_value_table.
+
+(** the constants and predicates of [ValueRange] *)
+Theorem C07_range_consts_table :
+  (forall n r, In (n, r) TablesActions.model_range_names -> TablesActions.range_named n = Some r)
+  /\ TablesActions.range_named ActionTables.gen_range_default = Some r_single
+  /\ {| vmin := ActionTables.gen_takes_value_default_fixed; vmax := ActionTables.gen_takes_value_default_fixed |} = r_single
+  /\ (forall n lo hi dbg, In (n, lo, hi, dbg) ActionTables.gen_range_consts -> dbg = false ->
+        In n (map fst TablesActions.model_range_names)).
+Proof. exact TablesActions.model_range_consts. Qed.
+Print Assumptions C07_range_consts_table.
+
+Theorem C07_range_preds_table :
+  TablesActions.pred_is TablesActions.pn_takes_values (fun r _ => r_takes_values r)
+  /\ TablesActions.pred_is TablesActions.pn_is_unbounded (fun r _ => r_is_unbounded r)
+  /\ TablesActions.pred_is TablesActions.pn_is_fixed (fun r _ => r_is_fixed r)
+  /\ TablesActions.pred_is TablesActions.pn_is_multiple (fun r _ => r_is_multiple r)
+  /\ TablesActions.pred_is TablesActions.pn_accepts_more r_accepts_more
+  /\ (forall r, TablesActions.obind (TablesActions.src_range_pred (fst ActionTables.gen_range_num_values) r 0)
+                  (fun b => Some (if b then Some (TablesActions.term_val r 0 (snd ActionTables.gen_range_num_values)) else None))
+                = Some (r_num_values r))
+  /\ map fst ActionTables.gen_range_preds = TablesActions.model_range_pred_names.
+Proof. exact TablesActions.model_range_preds. Qed.
+Print Assumptions C07_range_preds_table.
+
+(** the configuration gate ([assert_arg]: max_num_args, value_type_id): equal to the source for every action except
+    SetTrue/SetFalse, where the model is STRICTER (source: num_args(0..=1) and any value parser allowed) *)
+Theorem C07_action_gate_table : forall act,
+  exists r ty, TablesActions.src_max_num_args act = Some r /\ TablesActions.src_value_type act = Some ty
+    /\ vmax (action_max_num_args act) <= vmax r
+    /\ (TablesActions.flag_action act = false -> action_max_num_args act = r /\ action_value_type act = ty)
+    /\ (TablesActions.flag_action act = true -> action_max_num_args act = r_empty /\ r = {| vmin := 0; vmax := 1 |}
+                                  /\ action_value_type act = Some (vp_type VPBool) /\ ty = None).
+Proof. exact TablesActions.model_action_gate. Qed.
+Print Assumptions C07_action_gate_table.
+
+(** "the model's max_num_args / value_type_id equal the table" is false of the model (witness SetTrue; the real crate
+    accepts `--flag=false` for SetTrue + num_args(0..=1), the model answers INVALID: docs/notes/translators.md) *)
+Theorem C07_action_gate_table_refuted :
+  exists act, TablesActions.src_max_num_args act <> Some (action_max_num_args act)
+              /\ TablesActions.src_value_type act <> Some (action_value_type act).
+Proof. exact TablesActions.model_action_gate_refuted. Qed.
+Print Assumptions C07_action_gate_table_refuted.
+
+(** whatever the model's gate accepts passes the source's two assertions about the action *)
+Theorem C07_gate_implies_source : forall a, assert_arg a = true ->
+  exists r ty, TablesActions.src_max_num_args (a_get_action a) = Some r
+    /\ TablesActions.src_value_type (a_get_action a) = Some ty
+    /\ vmax (opt_default r_single (a_num a)) <= vmax r
+    /\ (forall t, ty = Some t -> exists vp, a_vp a = Some vp /\ vp_type vp = t).
+Proof. exact TablesActions.model_gate_implies_source. Qed.
+Print Assumptions C07_gate_implies_source.
